@@ -336,7 +336,7 @@ func classify(c *facet.Ctx, cs convgen.Case, converted bool) {
 const ntRule = "target differs from the value's type in at least one position and the conversion succeeds; distinct = hash of the JSON of (value spec, target spec)"
 
 var (
-	fullVals = gen.ValOpts{Null: true, Unknown: true, Marks: true, Long: 24}
+	fullVals = gen.ValOpts{Null: true, Unknown: true, Marks: true, Long: 24, ExtremeNums: true}
 	baseOpts = convgen.Opts{Type: gen.TypeOpts{Depth: 2, Dynamic: true, Long: 12}, Val: fullVals}
 	capsOpts = convgen.Opts{Type: gen.TypeOpts{Depth: 2, Dynamic: true, Capsule: true, Long: 12}, Val: fullVals}
 )
